@@ -227,7 +227,10 @@ class Harness:
         if not qs:
             return
         # queries beyond the key dtype's range travel as int64 (what a Python list of ints becomes)
-        got = lib(lambda: self.t.contains(np.array(qs, dtype=np.int64 if wide else self.dt)))
+        as_list = len(salts) % 2 == 1 and all(abs(q) < 2**62 for q in qs)
+        if as_list:
+            self.labels.append("contains:list-query")
+        got = lib(lambda: self.t.contains(list(qs) if as_list else np.array(qs, dtype=np.int64 if wide else self.dt)))
         if wide:
             self.labels.append("contains:wide-absent")
         exp = [q in self.m for q in qs]
